@@ -303,6 +303,9 @@ def run(F, rep, tier):
     hashname = encapsulation_rule(F, G, rep)
     seek_guard_rule(F, G, rep, hashname)
     coverage_rule(F, G, rep)
+    # the hash covers exactly the bytes the parser consumes: nothing between the hashing wrapper and the parsers reads ahead (BufReader) or re-wraps the stream
+    import streamid
+    streamid.slp_rule(F, rep, 'coverage.stream')
     format_rule(F, G, rep)
     persistence_rule(F, G, rep)
     fake = fmtspec.decode_template([5] + list(b"xxh3:") + [0xC0, 0])
